@@ -309,7 +309,7 @@ def run(ctx):
                for a_ in m_["arms"] if a_.get("guard") is not None and any(H.kind(x) == "MethodCall" and x["name"] == "kind" for x in H.walk(a_["guard"]))]
     ctx.inst("C19.R3", "main#inline-or-file-by-existence", not by_kind, "places where the kind of a read error decides between inline source and file: %s" % (by_kind or "none"), H.loc(hm_["body"]))
     pj_calls = [n for n in H.walk(hm["body"]) if H.kind(n) == "Call" and n.get("def") == "blots::parse_json_inputs"]
-    stdin_calls = [n for n in pj_calls if H.lit(n["args"][2]) is not None and H.lit(n["args"][2])["v"] == "stdin"]
+    stdin_calls = [n for n in pj_calls if any(H.lit(a_) is not None and H.lit(a_)["v"] == "stdin" for a_ in n["args"])]
     loops = [n for n in H.walk(hm["body"]) if H.kind(n) == "For" and any(H.kind(x) == "Call" and x.get("def") == "blots::parse_json_inputs" for x in H.walk(n["body"]))]
     ctx.inst("C19.R3", "main#stdin-first", len(stdin_calls) == 1 and len(loops) == 1 and stdin_calls[0]["sp"][3] < loops[0]["sp"][3],
              "stdin parsed at %s, --input loop at %s" % ([H.loc(x) for x in stdin_calls], [H.loc(x) for x in loops]), H.loc(hm["body"]))
@@ -352,13 +352,18 @@ def run(ctx):
             elif first_wins:
                 okm = False
         ctx.inst("C19.R3", "main#merge-later-wins", okm, "every (key, value) of each flag's map is inserted unconditionally into the merged map: %s" % okm, H.loc(lp))
+    pj_in = cli.hir_fn("blots::parse_json_inputs").get("inputs", [])
+    ctr_idx = next((i_ for i_, t_ in enumerate(pj_in) if t_.replace(" ", "") == "&mutusize"), None)   # the shared counter, wherever it sits in the parameter list
     ctr = set()
     for n in pj_calls:
-        a = H.strip(n["args"][3])
+        if ctr_idx is None or ctr_idx >= len(n["args"]):
+            ctr.add(None)
+            continue
+        a = H.strip(n["args"][ctr_idx])
         ctr.add(H.path_local(a))
     ctx.inst("C19.R3", "main#one-counter", len(ctr) == 1 and None not in ctr and len(pj_calls) >= 2, "parse_json_inputs calls share the counter %s (%d calls)" % (sorted(map(str, ctr)), len(pj_calls)), H.loc(hm["body"]))
     pj = cli.hir_fn("blots::parse_json_inputs")
-    cname = H.pat_binds(pj["params"][3])[0]
+    cname = H.pat_binds(pj["params"][ctr_idx])[0] if ctr_idx is not None else None
     incs = [n for n in H.walk(pj["body"]) if H.kind(n) == "AssignOp" and H.contains_local(n["l"], cname)]
     keys = [n for n in H.walk(pj["body"]) if H.kind(n) == "Macro" and n["name"] == "format" and any(H.template_text(t).startswith("value_") for t in H.macro_templates(cli, n))]
     okc = False
